@@ -38,6 +38,9 @@ type Pipe struct {
 	CloseCalls int
 	Sent       []Rec
 	SendMode   int
+	// InFlight / MaxInFlight: Send calls on this connection that have not returned yet (a protocol hands a
+	// connection one message at a time)
+	InFlight, MaxInFlight int
 	SendCalls  int
 	RecvCalls  int
 	Opts       map[string]interface{}
@@ -52,6 +55,14 @@ func NewPipe(t *Tran, name string) *Pipe {
 
 func (p *Pipe) Send(m *mangos.Message) error {
 	p.SendCalls++
+	p.InFlight++
+	if p.InFlight > p.MaxInFlight {
+		p.MaxInFlight = p.InFlight
+	}
+	defer func() { p.InFlight-- }()
+	// stream transports write a frame without any lock of their own: the protocol above must never have two
+	// sends outstanding on one connection
+	verif.Assert(p.InFlight <= 1, "vt/connection-handed-a-second-message-before-the-first-write-returned")
 	if p.Closed {
 		return mangos.ErrClosed
 	}
